@@ -77,10 +77,13 @@ def run_dataset(case, ctx):
             opts = {"repeat": False, "shuffle": shuffle}
             if dsops.iface_accepts(iface, "file_parallelism"):
                 opts["file_parallelism"] = fp
+            some_none = bool(proc and r.get("proc_none") and
+                             iface != "tfdata")
             if proc:
-                opts["process_record"] = (iter_common.tf_process_record
-                                          if iface == "tfdata" else
-                                          iter_common.np_process_record)
+                opts["process_record"] = (
+                    iter_common.tf_process_record if iface == "tfdata" else
+                    iter_common.np_process_record_some_none if some_none else
+                    iter_common.np_process_record)
             paths = [str(b.h.root / sh["files"][0]) for sh in b.shards[split]]
             iter_common.install_delays(desc, paths, r["delays"])
             iter_common.reset_calls()
@@ -96,6 +99,21 @@ def run_dataset(case, ctx):
                 continue
             want = [rec["id"] for rec in b.h.model[split]]
             ids = []
+            if some_none:
+                # the examples with id % 3 == 0 arrive as None, the others as
+                # the transformation's tuple
+                nones = sum(1 for ex in got if ex is None)
+                want_nones = sum(1 for i in want if i % 3 == 0)
+                if nones != want_nones:
+                    ctx.fail(
+                        "process-once", ("process-record-none-results", iface),
+                        f"{iface} split={split} N={n} shuffle={shuffle} "
+                        f"file_parallelism={fp}: process_record returns None "
+                        f"for {want_nones} of the examples, the pass yielded "
+                        f"{nones} None and {len(got) - nones} other elements")
+                got = [ex for ex in got if ex is not None]
+                want = [i for i in want if i % 3 != 0]
+                ctx.label("process_record-returns-None")
             for ex in got:
                 if proc and iface != "tfdata":
                     if not (isinstance(ex, tuple) and len(ex) == 3 and
@@ -143,6 +161,33 @@ def run_dataset(case, ctx):
                         "process-once", ("process-record-call-count", iface),
                         f"{iface}: process_record called "
                         f"{iter_common.calls()} times for {n} examples")
+            if iface == "tfdata" and not proc:
+                # every pass over the SAME returned tf.data object (Keras
+                # iterates it once per epoch), also after a pass that was
+                # abandoned early, is a full pass
+                peek = 1 + len(r["delays"])
+                ok, obj = oracles.guarded(
+                    ctx, "multiset", ("iteration-raised", iface),
+                    f"{iface} split={split} object",
+                    lambda: dsops.tfdata_object(ds, split, **opts))
+                for again in (("peek", "pass-2", "pass-3") if ok else ()):
+                    ok2, got2 = oracles.guarded(
+                        ctx, "multiset", ("iteration-raised", iface, again),
+                        f"{iface} split={split} same object, {again}",
+                        lambda: dsops.iterate_tfdata_object(
+                            *obj, n=peek if again == "peek" else None))
+                    if not ok2 or again == "peek":
+                        continue
+                    ids2 = [dsops.ex_id_of(e) for e in got2]
+                    if Counter(ids2) != Counter(want):
+                        ctx.fail(
+                            "multiset",
+                            ("multiset-mismatch", iface, "same-object-again"),
+                            f"{iface} split={split} N={n} shuffle={shuffle}: "
+                            f"{again} over the same tf.data object (after a "
+                            f"pass abandoned at {peek}): " +
+                            oracles.multiset_diff(ids2, want))
+                ctx.label("tfdata-object-again")
             ctx.count("reads")
             ctx.evaluated()
             ctx.label("iface=" + iface, "shuffle" + shuffle_class(shuffle, n),
@@ -168,7 +213,20 @@ def strategy_components(tier):
         "lens": st.lists(st.integers(0, 12), min_size=0, max_size=9),
         "n": st.integers(0, 60),
         "b": st.one_of(st.integers(1, 8), st.integers(1, 70)),
+        # what the elements are: distinct integers, or objects among which
+        # None and other falsy values occur (a caller's transformation may
+        # return anything; no value is an in-band end marker)
+        "elements": st.sampled_from(["int", "int", "falsy"]),
     })
+
+
+FALSY = [None, 0, "", (), False, 0.0, b""]
+
+
+def _element(kind, x):
+    if kind == "falsy" and x % 3 != 1:
+        return FALSY[x % len(FALSY)]
+    return x
 
 
 def _collect_async(agen):
@@ -188,9 +246,16 @@ def run_components(case, ctx):
                                       round_robin_async, shuffle_buffer)
     from sedpack.io.itertools.itertools import shuffle_buffer_async
     comp, b = case["comp"], case["b"]
+    kind = case.get("elements", "int")
     if comp in ("shuffle_buffer", "shuffle_buffer_async", "lazy_pool"):
-        items = list(range(case["n"]))
-        if comp == "shuffle_buffer":
+        items = [_element(kind, x) for x in range(case["n"])]
+        if comp == "lazy_pool" and kind != "int":
+            t = 1 + (b - 1) % 5
+            with LazyPool(t) as pool:
+                out = list(pool.imap_unordered(lambda x: _element(kind, x),
+                                               list(range(case["n"]))))
+            b = t
+        elif comp == "shuffle_buffer":
             out = list(shuffle_buffer(iter(items), buffer_size=b))
         elif comp == "shuffle_buffer_async":
             out = _collect_async(shuffle_buffer_async(_agen(items), b))
@@ -206,7 +271,7 @@ def run_components(case, ctx):
     else:
         streams, k = [], 0
         for ln in case["lens"]:
-            streams.append(list(range(k, k + ln)))
+            streams.append([_element(kind, x) for x in range(k, k + ln)])
             k += ln
         want = [x for s in streams for x in s]
         if comp == "round_robin":
@@ -218,13 +283,14 @@ def run_components(case, ctx):
         nontrivial = len(streams) > b and any(
             len(s) == 0 for s in streams) or len(streams) > b
         shape = (len(streams) > b, tuple(min(len(s), 2) for s in streams))
-    if Counter(out) != Counter(want):
+    if Counter(map(repr, out)) != Counter(map(repr, want)):
         ctx.fail("multiset", ("component-multiset-mismatch", comp),
                  f"{comp} b={b} in={want} out={out}: " +
-                 oracles.multiset_diff(out, want))
-    ctx.label("comp=" + comp)
+                 oracles.multiset_diff([repr(x) for x in out],
+                                       [repr(x) for x in want]))
+    ctx.label("comp=" + comp, "elements=" + kind)
     if nontrivial:
-        ctx.nontrivial([comp, min(b, 9), shape])
+        ctx.nontrivial([comp, min(b, 9), shape, kind])
 
 
 # ------------------------------------------------- shuffled reader under shim
